@@ -230,9 +230,15 @@ class BuildDirector(SectionLineParser):
                 self._tag_nodes(molecule, "rw_options",
                                 self.rw_options[(molecule.mol_name, mol_idx)],
                                 molecule.mol_name)
-            molecule.templates = self.templates
 
         super().finalize(lineno=lineno)
+
+        # the last template is complete only now; templates
+        # read from other build files are kept
+        for molecule in self.molecules:
+            templates = getattr(molecule, "templates", {})
+            templates.update(self.templates)
+            molecule.templates = templates
 
         # if template graphs and volumes are provided
         # make sure that volumes are indexed by the hash
